@@ -3,6 +3,9 @@
 import json, subprocess, os
 HERE = os.path.dirname(os.path.dirname(os.path.abspath(__file__)))
 
+HIST = (" Histories are part of every schedule: faulted deliveries are preceded and followed by the genuine one, sessions reuse keys/objects, "
+        "each run executes in a fresh thread and a violation that needs state from earlier operations is replayed as the whole run.")
+
 TRUST = ("Trusted base: the reference models in sim/src/refmodel (validated before every check against the standards' "
          "published examples; exit 2 if a self-test fails), the simulator itself, and sampling of keys/IDs/messages/nonces "
          "from seeded classes. Tamper oracles consult the reference on the delivered bytes instead of assuming a modification is invalid.")
@@ -69,7 +72,7 @@ def main():
             "evidence_file": f"/verif/evidence/{pid}.json",
             "replay_cmd_template": "./check --replay {path}",
             "engine": "gmsim",
-            "level_claimed": {"category": level, "text": text, "design_ref": f"DESIGN.md section {ref}"},
+            "level_claimed": {"category": level, "text": text + HIST, "design_ref": f"DESIGN.md section {ref} (and 3.7, 9, 15)"},
             "level_note": TRUST,
             "technique": tech,
         })
